@@ -434,6 +434,36 @@ def apply_step(df: t.Any, s: dict, F: t.Any) -> t.Any:
     raise ValueError(k)
 
 
+def shape_of_sql(text: str) -> t.List[dict]:
+    """the statement read back: per CTE (the first is createDataFrame's own SELECT … FROM VALUES), then the final block — select names, WHERE present,
+    DISTINCT, ORDER BY keys, LIMIT; a UNION CTE (unpivot) by its number of branches"""
+    import sqlglot
+    from sqlglot import exp
+
+    tree = sqlglot.parse_one(text, dialect="duckdb")
+    ctes = list(tree.args["with"].expressions) if tree.args.get("with") else []
+    body = tree.copy()
+    body.set("with", None)
+
+    def one(q: t.Any) -> dict:
+        if isinstance(q, exp.SetOperation):
+            n, cur = 1, q
+            while isinstance(cur.this, exp.SetOperation):
+                n, cur = n + 1, cur.this
+            return {"kind": "unpivot", "branches": n + 1, "distinct": bool(q.args.get("distinct"))}
+        order = q.args.get("order")
+        keys = []
+        for o in order.expressions if order else []:
+            k = o.this if isinstance(o, exp.Ordered) else o
+            keys.append([k.name if isinstance(k, exp.Column) else k.sql(), bool(isinstance(o, exp.Ordered) and o.args.get("desc"))])
+        lim = q.args.get("limit")
+        return {"kind": "block", "sel": [e.alias_or_name for e in q.expressions], "where": q.args.get("where") is not None,
+                "distinct": q.args.get("distinct") is not None, "order": keys,
+                "limit": int(lim.expression.name) if lim is not None else None}
+
+    return [one(c.this) for c in ctes] + [one(body)]
+
+
 def run_impl(c: dict) -> dict:
     from sqlframe.duckdb import functions as F
 
@@ -443,7 +473,11 @@ def run_impl(c: dict) -> dict:
             df = apply_step(df, s, F)
         cols = list(df.columns)
         rows = [[plain(v) for v in r] for r in df.collect()]
-        return {"cols": cols, "rows": rows}
+        try:
+            shape = shape_of_sql(df.sql(dialect="duckdb", optimize=False)) if c["rows"] else None
+        except Exception as e:  # noqa
+            shape = f"unreadable: {type(e).__name__}: {str(e)[:120]}"
+        return {"cols": cols, "rows": rows, "shape": shape}
     except Exception as e:  # noqa
         return {"err": f"{type(e).__name__}: {str(e)[:200]}"}
 
@@ -705,6 +739,16 @@ def cases_for(ctx: Ctx) -> t.List[dict]:
     return cases
 
 
+def norm_shape(sh: t.Any) -> t.Any:
+    sh = json.loads(json.dumps(sh))
+    if isinstance(sh, list):
+        for i, b in enumerate(sh):
+            # a one-column unpivot is a single SELECT (no UNION): it reads back as a plain block with the output names
+            if isinstance(b, dict) and b.get("kind") == "unpivot" and b.get("branches") == 1 and i + 1 < len(sh):
+                sh[i] = {"kind": "block", "sel": sh[i + 1].get("sel"), "where": False, "distinct": False, "order": [], "limit": None}
+    return sh
+
+
 def evaluate(cases: t.List[dict], workers: int = 0) -> t.List[dict]:
     outs = vlib.run_driver("C01", [case_to_lean(i, c) for i, c in enumerate(cases)])
     impls = vlib.parallel_map(run_impl, cases, workers)
@@ -723,6 +767,8 @@ def evaluate(cases: t.List[dict], workers: int = 0) -> t.List[dict]:
                 "ordered": ordered,
                 "impl_eq_model": same(impl, o["model"], ordered),
                 "impl_eq_spec": same(impl, o["spec"], ordered),
+                "model_shape": o.get("shape"),
+                "shape_eq": ("shape" not in o) or impl.get("shape") is None or "err" in impl or norm_shape(impl.get("shape")) == norm_shape(o["shape"]),
             }
         )
     return res
@@ -820,6 +866,13 @@ def run(ctx: Ctx) -> None:
 
     if model_mismatch:
         ctx.broken.append(f"correspondence stream A (implementation vs Impl/DataFrame.lean): {len(model_mismatch)} of {len(res)} cases differ")
+    shape_mismatch = [r for r in res if not r["shape_eq"]]
+    if shape_mismatch:
+        r0 = shape_mismatch[0]
+        ctx.broken.append(
+            f"correspondence stream S (CTE chain of the real unoptimized statement vs the model's frozen blocks, DF.hist): {len(shape_mismatch)} of {len(res)} cases differ, "
+            f"e.g. {show_case(r0['case'])[:200]}: statement {json.dumps(r0['impl'].get('shape'))[:400]} vs model {json.dumps(r0['model_shape'])[:400]}"
+        )
 
     reported = 0
     for r in new_viol[:3]:
@@ -865,6 +918,7 @@ def run(ctx: Ctx) -> None:
             "rule": "corpus, then every sequence of operation kinds up to the tier's depth with discriminating arguments, then random chains of length 3..10; "
             "non-trivial = distinct (steps, rows) whose implementation result is non-empty and differs from the input rows",
             "traces_validated_against_impl": sum(r["impl_eq_model"] for r in res),
+            "statement_shapes_validated_against_impl": sum(1 for r in res if r["shape_eq"] and "err" not in r["impl"] and r["impl"].get("shape") is not None),
             "impl_vs_spec_agree": sum(r["impl_eq_spec"] for r in res),
             "out_of_scope_cases": sum(1 for r in res if r["scope"]),
             "order_determined_cases": n_ordered,
